@@ -475,6 +475,27 @@ func streamWrappers(rep *Report, tier string, seed uint64) {
 				}
 				xv := x.Build(0)
 				var orc []string
+				// user methods that call back into the printer (nested Print/Printf) while a wrapper is in force
+				if r.Chance(15) {
+					cb := callbackFmtr{safe: safeStr(i % 50), unsafe: unsafeStr(i%50, 0), usePrintf: r.Bool()}
+					if r.Bool() {
+						out, pm := rSprint([]interface{}{redact.Unsafe(cb)})
+						if pm != "" {
+							orc = append(orc, "C11:print call panicked: "+pm)
+						} else if e := wflErr(out); e != "" {
+							orc = append(orc, "C01:"+e)
+						} else if len(bytes.Trim(dropEnvs(out), "\n")) != 0 {
+							orc = append(orc, fmt.Sprintf("C06:Unsafe(formatter calling back through SafePrinter) not entirely inside envelopes: %q", out))
+						}
+					} else {
+						out, pm := rSprint([]interface{}{redact.Safe(callbackSF{cb})})
+						if pm != "" {
+							orc = append(orc, "C11:print call panicked: "+pm)
+						} else if hasMarker(out) {
+							orc = append(orc, fmt.Sprintf("C06:Safe(SafeFormatter calling back through Print/Printf) produced an envelope: %q", out))
+						}
+					}
+				}
 				// Unsafe(x), also nested under further wrappers: outermost decides
 				uw := redact.Unsafe(xv)
 				depth := r.Intn(3)
@@ -539,6 +560,34 @@ func streamWrappers(rep *Report, tier string, seed uint64) {
 			}
 		})
 }
+
+// callbackFmtr is a fmt.Formatter that discovers the SafePrinter behind its
+// fmt.State and calls back into the printer.
+type callbackFmtr struct {
+	safe, unsafe string
+	usePrintf    bool
+}
+
+func (c callbackFmtr) run(sp redact.SafePrinter) {
+	if c.usePrintf {
+		sp.Printf("cb %s|%d|%v", c.unsafe, redact.Safe(7), redact.SafeString(c.safe))
+	} else {
+		sp.Print(redact.Safe(c.safe), c.unsafe, redact.SafeString("z"))
+	}
+	sp.SafeString("tail")
+}
+
+func (c callbackFmtr) Format(st fmt.State, _ rune) {
+	if sp, ok := st.(redact.SafePrinter); ok {
+		c.run(sp)
+	} else {
+		fmt.Fprint(st, "plain")
+	}
+}
+
+type callbackSF struct{ c callbackFmtr }
+
+func (c callbackSF) SafeFormat(sp redact.SafePrinter, _ rune) { c.c.run(sp) }
 
 func testHook(err error, p redact.SafePrinter, verb rune) {
 	p.SafeString("HOOK[")
